@@ -2201,9 +2201,143 @@ theorem textObjQuote_pair_in_text (s : MS) (q : Gr) (around : Bool) (a b : Nat) 
   textObjQuote_pair s q around a b (Motions.thisLine_bounds s hc hnl).1 h
 
 /-- `say "hi \" there" now`: from inside the string, and from before it (the first pair after the cursor) -/
-example : evalTextObjQuote ⟨"say \"hi \\\" x\" now\n".toList.map (fun c => [c]), 7, true, false, []⟩ ['"'] false = .exclusive 5 12 := by decide
-example : evalTextObjQuote ⟨"say \"hi \\\" x\" now\n".toList.map (fun c => [c]), 0, true, false, []⟩ ['"'] false = .exclusive 5 12 := by decide
+example : evalTextObjQuote ⟨"say \"hi \\\" x\" now\n".toList.map (fun c => [c]), 7, true, false, []⟩ [Char.ofNat 34] false = .exclusive 5 12 := by decide
+example : evalTextObjQuote ⟨"say \"hi \\\" x\" now\n".toList.map (fun c => [c]), 0, true, false, []⟩ [Char.ofNat 34] false = .exclusive 5 12 := by decide
 /-- a lone quote is no object -/
-example : evalTextObjQuote ⟨"it's\n".toList.map (fun c => [c]), 0, true, false, []⟩ ['\''] false = .null := by decide
+example : evalTextObjQuote ⟨"it`s\n".toList.map (fun c => [c]), 0, true, false, []⟩ ['`'] false = .null := by decide
+
+end Vicut.DelimThms
+
+/-! ## `%`: the scan is characterised exactly, and `%` from an opener is undone by `%` -/
+namespace Vicut.DelimThms
+open Vicut Vicut.Delim
+
+/-- **The nesting scan finds exactly the first return to zero** (converse of `scanMatch_sound`): if `k` is
+a `tgt` at which the nesting is back to zero and it was positive at every earlier position, the scan answers `k`. -/
+theorem scanMatch_first_zero (new tgt : Gr) (hne : new ≠ tgt) :
+    ∀ (xs : List Gr) (d k : Nat), 1 ≤ d → xs[k]? = some tgt →
+      d + (xs.take (k + 1)).count new = (xs.take (k + 1)).count tgt →
+      (∀ j, j < k → (xs.take (j + 1)).count tgt < d + (xs.take (j + 1)).count new) →
+      scanMatch new tgt xs d = some k := by
+  intro xs d k hd hk hb hpos
+  cases hs : scanMatch new tgt xs d with
+  | none =>
+    have hlt : k < xs.length := (List.getElem?_eq_some_iff.mp hk).1
+    have := scanMatch_none new tgt hne xs d hd hs k hlt
+    omega
+  | some k' =>
+    obtain ⟨a, b, c⟩ := scanMatch_sound new tgt hne xs d k' hd hs
+    rcases Nat.lt_trichotomy k k' with h | h | h
+    · have := c k h; omega
+    · rw [h]
+    · have := hpos k' h; omega
+
+/-- … hence the answer of the scan is characterised completely. -/
+theorem scanMatch_iff (new tgt : Gr) (hne : new ≠ tgt) (xs : List Gr) (d k : Nat) (hd : 1 ≤ d) :
+    scanMatch new tgt xs d = some k ↔
+      (xs[k]? = some tgt ∧ d + (xs.take (k + 1)).count new = (xs.take (k + 1)).count tgt ∧
+        ∀ j, j < k → (xs.take (j + 1)).count tgt < d + (xs.take (j + 1)).count new) :=
+  ⟨scanMatch_sound new tgt hne xs d k hd, fun ⟨a, b, c⟩ => scanMatch_first_zero new tgt hne xs d k hd a b c⟩
+
+end Vicut.DelimThms
+namespace Vicut.DelimThms
+open Vicut Vicut.Delim
+
+theorem count_take_add_drop (a : Gr) (l : List Gr) (n : Nat) : (l.take n).count a + (l.drop n).count a = l.count a := by
+  rw [← List.count_append, List.take_append_drop]
+
+theorem partner_symm_fwd (g tgt : Gr) (h : partner g = some (tgt, true)) : partner tgt = some (g, false) := by
+  unfold partner at h
+  repeat' split at h
+  all_goals first | (simp at h; obtain ⟨rfl, _⟩ := h; subst_vars; decide) | simp at h
+
+end Vicut.DelimThms
+
+namespace Vicut.DelimThms
+open Vicut Vicut.Delim
+
+/-- **`%` is its own inverse on an opener**: from an opener `%` lands on a closer from which `%` comes back. -/
+theorem matchFrom_involutive_fwd (gs : List Gr) (idx j : Nat) (g tgt : Gr)
+    (hg : gs[idx]? = some g) (hp : partner g = some (tgt, true)) (h : matchFrom gs idx = some j) :
+    matchFrom gs j = some idx := by
+  have hne := partner_ne g tgt true hp
+  obtain ⟨k, hj, hgj, hb, hpos⟩ := matchFrom_forward gs idx j g tgt hg hp h
+  subst hj
+  have hp' := partner_symm_fwd g tgt hp
+  have hjlt : idx + 1 + k < gs.length := (List.getElem?_eq_some_iff.mp hgj).1
+  have hidx : idx < gs.length := by omega
+  unfold matchFrom
+  simp only [hgj, hp']
+  -- the reversed prefix: the closer, then the stretch between, then the opener
+  have hrev : (gs.take (idx + 1 + k + 1)).reverse = tgt :: (gs.take (idx + 1 + k)).reverse := by
+    rw [List.take_succ_eq_append_getElem hjlt]
+    simp [List.getElem?_eq_getElem hjlt] at hgj
+    simp [hgj]
+  rw [hrev]
+  unfold scanMatch
+  simp only [if_true]
+  obtain ⟨xs, hxs⟩ : ∃ xs, xs = gs.drop (idx + 1) := ⟨_, rfl⟩
+  obtain ⟨T, hT⟩ : ∃ T, T = xs.take k := ⟨_, rfl⟩
+  rw [← hxs] at hb hpos
+  have hTlen : T.length = k := by simp [hT, hxs]; omega
+  have hsplit : gs.take (idx + 1 + k) = gs.take (idx + 1) ++ T := by
+    rw [List.take_add, hT, hxs]
+  have hys : (gs.take (idx + 1 + k)).reverse = T.reverse ++ (gs.take (idx + 1)).reverse := by
+    rw [hsplit, List.reverse_append]
+  have hhead : (gs.take (idx + 1)).reverse = g :: (gs.take idx).reverse := by
+    rw [List.take_succ_eq_append_getElem hidx]
+    simp [List.getElem?_eq_getElem hidx] at hg
+    simp [hg]
+  -- counts on prefixes of xs in terms of T
+  have hpre : ∀ m, m ≤ k → xs.take m = T.take m := by
+    intro m hm
+    rw [hT, List.take_take, Nat.min_eq_left hm]
+  have hxk : xs[k]? = some tgt := by
+    simpa [hxs, List.getElem?_drop, Nat.add_assoc] using hgj
+  have htk1 : xs.take (k + 1) = T ++ [tgt] := by
+    have hlt : k < xs.length := (List.getElem?_eq_some_iff.mp hxk).1
+    rw [List.take_succ_eq_append_getElem hlt]
+    simp [List.getElem?_eq_getElem hlt] at hxk
+    simp [hT, hxk]
+  have hbal : T.count g = T.count tgt := by
+    rw [htk1] at hb
+    simp [List.count_append, hne, Ne.symm hne] at hb
+    omega
+  have hprefix : ∀ m, m ≤ k → (T.take m).count tgt ≤ (T.take m).count g := by
+    intro m hm
+    cases m with
+    | zero => simp
+    | succ i =>
+      have := hpos i (by omega)
+      rw [hpre (i + 1) hm] at this
+      omega
+  have hscan : scanMatch tgt g (T.reverse ++ g :: (gs.take idx).reverse) (0 + 1) = some k := by
+    apply scanMatch_first_zero tgt g (Ne.symm hne) _ 1 k (by omega)
+    · rw [List.getElem?_append_right (by simp [hTlen])]
+      simp [hTlen]
+    · have : (T.reverse ++ g :: (gs.take idx).reverse).take (k + 1) = T.reverse ++ [g] := by
+        rw [List.take_append]
+        have e : List.take (k + 1) T.reverse = T.reverse := List.take_of_length_le (by simp [hTlen])
+        simp [hTlen, e]
+      rw [this]
+      simp [List.count_append, hne, Ne.symm hne]
+      omega
+    · intro i hi
+      have : (T.reverse ++ g :: (gs.take idx).reverse).take (i + 1) = (T.drop (k - (i + 1))).reverse := by
+        rw [List.take_append_of_le_length (by simp [hTlen]; omega)]
+        rw [List.take_reverse]
+        simp [hTlen]
+      rw [this]
+      simp only [List.count_reverse]
+      have e1 := count_take_add_drop g T (k - (i + 1))
+      have e2 := count_take_add_drop tgt T (k - (i + 1))
+      have := hprefix (k - (i + 1)) (by omega)
+      omega
+  rw [hys, hhead, hscan]
+  simp
+  omega
+
+example : matchFrom ("a (b [c] d) e".toList.map (fun c => [c])) 2 = some 10 ∧
+    matchFrom ("a (b [c] d) e".toList.map (fun c => [c])) 10 = some 2 := by decide
 
 end Vicut.DelimThms
